@@ -154,9 +154,10 @@ def cfg_riscv():
     from ppci import ir
     from . import irgen
     wide = [ir.i32, ir.u32]
+    # allocas off: irgen initialises them with i64 stores, which the riscv selector does not cover (C29)
     return irgen.GenConfig(int_types=wide, param_types=wide, mem_types=[ir.i8, ir.i16, ir.i32, ir.u8, ir.u16, ir.u32],
                            floats=False, externals=False, total_stmts=28, loop_bound=3, max_params=4, max_funcs=2,
-                           copyblob=False, recursion=False)
+                           copyblob=False, recursion=False, allocas=False)
 
 
 def cfg_x86():
@@ -209,13 +210,14 @@ def compile_targets_only(ctx, g, marches):
             ctx.count("codegen_error_" + march.replace(":", "_") + "_" + type(e).__name__)
 
 
-def exec_search(ctx):
+def exec_search(ctx, parts):
+    """failing-input search; appends its driver requests to `parts` and returns the function to call afterwards"""
     from . import irgen, irrun
     import random
     thorough = ctx.thorough
     items = [(g, cases, "corpus") for g, cases in corpus_modules()]
     base = ctx.rng.randrange(1 << 30)
-    n_rv = 24 if thorough else 4
+    n_rv = 30 if thorough else 5
     for k in range(n_rv):
         r = random.Random(base + k)
         g = irgen.gen_module(r, cfg_riscv(), name=f"rv{base + k}")
@@ -227,21 +229,32 @@ def exec_search(ctx):
             if g.externals:
                 continue
             r = random.Random(base)
-            ok_entries = [e for e in g.entries if all(t.bits <= 32 for t in e.params if hasattr(t, "bits"))]
-            cases = [(e, a) for e in ok_entries for a in irgen.gen_args(r, e, 2)]
+            cases = [(e, a) for e in g.entries for a in irgen.gen_args(r, e, 2)]
             if cases:
                 items.append((g, cases, "c-frontend"))
     except Exception as e:  # noqa
         ctx.note(f"c_modules('riscv') unavailable: {type(e).__name__}: {e}"[:200])
-    # Spec.IR first (serialises the modules before any code generator touches them)
+    x_items = [(g, cases, tag) for g, cases, tag in corpus_modules_tagged()]
+    n_x = 24 if thorough else 4
+    for k in range(n_x):
+        r = random.Random(base + 1000 + k)
+        g = irgen.gen_module(r, cfg_x86(), name=f"x{base + 1000 + k}")
+        cases = [(e, a) for e in g.entries if e.external_ok for a in irgen.gen_args(r, e, 4 if thorough else 3)]
+        x_items.append((g, cases, f"gen-seed-{base + 1000 + k}"))
+    # Spec.IR first, ONE driver start for all modules (serialises them before any code generator touches them)
     ir_lines, index = [], []
     for g, cases, tag in items:
         ls = irrun.spec_requests(g, cases, fuel=60000, ptr=4)
         index.append((len(ir_lines), len(ls)))
         ir_lines += ls
+    x_index = []
+    for g, cases, tag in x_items:
+        ls = irrun.spec_requests(g, cases, fuel=200000, ptr=8)
+        x_index.append((len(ir_lines), len(ls)))
+        ir_lines += ls
     spec_out = ctx.driver("IR", ir_lines)
+    texts = {id(g): irser_text(g) for g, _, tag in items + x_items if tag != "c-frontend"}
     rv_lines, rv_meta = [], []
-    texts = {id(g): irser_text(g) for g, _, tag in items if tag != "c-frontend"}
     peep = cgslivers.PeepCapture()
     allocs = cgslivers.AllocCapture()
     with peep, allocs:
@@ -258,88 +271,80 @@ def exec_search(ctx):
             for march in ("riscv", "riscv:rvc"):
                 try:
                     syms, images = rv_build(g.module, march)
-                except Exception as e:  # noqa
+                except Exception as e:  # noqa   instruction-selector holes (i64 on riscv …) are C29's findings
                     ctx.count("codegen_error_" + march.replace(":", "_") + "_" + type(e).__name__)
-                    ctx.note(f"{g.module.name} {march}: {type(e).__name__}: {str(e)[:120]}")
+                    ctx.note(f"{g.module.name} {march}: {type(e).__name__}: {str(e)[:100]}")
                     continue
+                ctx.count("compiled_" + march.replace(":", "_"))
                 lines, per_case = rv_requests(g, [c for c, _ in good], syms, images, fuel=400000)
                 rv_meta.append((g, tag, march, good, len(rv_lines), per_case))
                 rv_lines += lines
-            compile_targets_only(ctx, g, ["arm", "arm:thumb", "mips", "m68k"] if thorough else ["arm", "mips"])
+            compile_targets_only(ctx, g, ["arm", "arm:thumb", "mips", "m68k"] if thorough else ["arm"])
     # peephole / Frame.alloc on the non-x86 targets just compiled
-    cgslivers.peephole_check(ctx, "C05", peep.streams, "ir_to_object riscv/arm/mips", expect_identity=True)
-    cgslivers.captured_frames_check(ctx, "C05", allocs, "ir_to_object riscv/arm/mips")
-    rv_out = ctx.driver("C05", rv_lines) if rv_lines else []
-    for g, tag, march, good, off, per_case in rv_meta:
-        pg = irrun.pointer_globals(g.module)
-        mtag = march.replace(":", "_")
-        for ((e, args), spec), (run_at, dumps) in zip(good, per_case):
-            ctx.count("eval_exec_" + mtag)
-            ctx.nontrivial((g.module.name, e.name, march))
-            rr = rv_out[off + run_at]
-            case = {"module": g.module.name, "from": tag, "march": march, "function": e.name, "args": [int(a) for a in args],
-                    "ir": texts.get(id(g), "(C front-end output)")}
-            want = irrun.mask_globals(irrun.strip_steps(spec)[3:], pg)
-            if not rr.startswith("ok ret="):
-                kind = rr.split()[1] if rr.startswith("ok ") else "driver"
-                why = rr.split()[2] if kind == "fault" and len(rr.split()) > 2 else kind
-                ctx.fail(f"riscv-exec:{march}:{why}", f"{g.module.name}.{e.name}{tuple(args)} on {march}: RV32 run ended with `{rr}`; Spec.IR: {want}",
-                         case, spec=spec, machine=rr)
+    parts.append(cgslivers.peephole_check(ctx, peep.streams, "ir_to_object riscv/arm/mips", expect_identity=True))
+    parts.append(cgslivers.captured_frames_check(ctx, allocs, "ir_to_object riscv/arm/mips"))
+
+    def rv_finish(rv_out):
+        for g, tag, march, good, off, per_case in rv_meta:
+            pg = irrun.pointer_globals(g.module)
+            mtag = march.replace(":", "_")
+            for ((e, args), spec), (run_at, dumps) in zip(good, per_case):
+                ctx.count("eval_exec_" + mtag)
+                ctx.nontrivial((g.module.name, e.name, march))
+                rr = rv_out[off + run_at]
+                case = {"module": g.module.name, "from": tag, "march": march, "function": e.name, "args": [int(a) for a in args],
+                        "ir": texts.get(id(g), "(C front-end output)")}
+                want = irrun.mask_globals(irrun.strip_steps(spec)[3:], pg)
+                if not rr.startswith("ok ret="):
+                    kind = rr.split()[1] if rr.startswith("ok ") else "driver"
+                    why = rr.split()[2] if kind == "fault" and len(rr.split()) > 2 else kind
+                    ctx.fail(f"riscv-exec:{march}:{why}", f"{g.module.name}.{e.name}{tuple(args)} on {march}: RV32 run ended with `{rr}`; Spec.IR: {want}",
+                             case, spec=spec, machine=rr)
+                    continue
+                x10 = int(rr.split("ret=")[1].split()[0])
+                ret = "none" if e.ret is None else irrun.show_val(e.ret, irrun.wrap(e.ret, x10))
+                globs = [(name, bytes.fromhex(rv_out[off + k][3:]) if rv_out[off + k] != "ok -" else b"") for name, k in dumps]
+                got = irrun.mask_globals(irrun.canon(ret, globs, []), pg)
+                if not irrun.same_modulo_undef(want, got):
+                    part = "ret" if want.split(" globals=")[0] != got.split(" globals=")[0] else "globals"
+                    ctx.fail(f"riscv-exec:{march}:wrong-{part}", f"{g.module.name}.{e.name}{tuple(args)} on {march}: machine code gives {got}; Spec.IR: {want}",
+                             case, spec=spec, machine=got)
+            if good:
+                ctx.sample({"module": g.module.name, "march": march, "function": good[0][0][0].name, "args": [int(a) for a in good[0][0][1]],
+                            "spec": good[0][1][:120]})
+    parts.append((rv_lines, rv_finish))
+
+    def x86_native():
+        for (g, cases, tag), (start, n) in zip(x_items, x_index):
+            rep = spec_out[start:start + n]
+            if not rep[1].startswith("ok") or rep[2] != "ok 1":
+                ctx.count("module_rejected_by_spec")
                 continue
-            x10 = int(rr.split("ret=")[1].split()[0])
-            ret = "none" if e.ret is None else irrun.show_val(e.ret, irrun.wrap(e.ret, x10))
-            globs = [(name, bytes.fromhex(rv_out[off + k][3:]) if rv_out[off + k] != "ok -" else b"") for name, k in dumps]
-            got = irrun.mask_globals(irrun.canon(ret, globs, []), pg)
-            if not irrun.same_modulo_undef(want, got):
-                part = "ret" if want.split(" globals=")[0] != got.split(" globals=")[0] else "globals"
-                ctx.fail(f"riscv-exec:{march}:wrong-{part}", f"{g.module.name}.{e.name}{tuple(args)} on {march}: machine code gives {got}; Spec.IR: {want}",
-                         case, spec=spec, machine=got)
-        if good:
-            ctx.sample({"module": g.module.name, "march": march, "function": good[0][0][0].name, "args": [int(a) for a in good[0][0][1]],
-                        "spec": good[0][1][:120]})
-    # x86-64 natively
-    x_items = [(g, cases, tag) for g, cases, tag in corpus_modules_tagged()]
-    n_x = 24 if thorough else 4
-    for k in range(n_x):
-        r = random.Random(base + 1000 + k)
-        g = irgen.gen_module(r, cfg_x86(), name=f"x{base + 1000 + k}")
-        cases = [(e, a) for e in g.entries if e.external_ok for a in irgen.gen_args(r, e, 4 if thorough else 3)]
-        x_items.append((g, cases, f"gen-seed-{base + 1000 + k}"))
-    ir_lines, index = [], []
-    for g, cases, tag in x_items:
-        ls = irrun.spec_requests(g, cases, fuel=200000, ptr=8)
-        index.append((len(ir_lines), len(ls)))
-        ir_lines += ls
-    spec_out = ctx.driver("IR", ir_lines)
-    for (g, cases, tag), (start, n) in zip(x_items, index):
-        rep = spec_out[start:start + n]
-        if not rep[1].startswith("ok") or rep[2] != "ok 1":
-            ctx.count("module_rejected_by_spec")
-            continue
-        text = irser_text(g)
-        natives = irrun.native_results(g, cases)
-        pg = irrun.pointer_globals(g.module)
-        for (e, args), spec, nat in zip(cases, rep[3:], natives):
-            if not spec.startswith("ok ret="):
-                ctx.count("spec_not_ok_runs")
-                continue
-            ctx.count("eval_exec_x86_64")
-            ctx.nontrivial((g.module.name, e.name, "x86_64"))
-            want = irrun.mask_globals(irrun.strip_steps(spec)[3:], pg)
-            got = irrun.mask_globals(nat, pg)
-            case = {"module": g.module.name, "from": tag, "march": "x86_64", "function": e.name, "args": [int(a) for a in args], "ir": text}
-            if nat.startswith("codegen "):
-                ctx.count("codegen_error_x86_64")
-                ctx.note(f"{g.module.name}: x86_64 {nat[:160]}")
-                break
-            if not nat.startswith("ret="):
-                ctx.fail(f"x86_64-exec:{nat.split()[0]}", f"{g.module.name}.{e.name}{tuple(args)} natively: {nat[:200]}; Spec.IR: {want}", case, spec=spec, machine=nat)
-                continue
-            if not irrun.same_modulo_undef(want, got):
-                w, gg = want.split(" "), got.split(" ")
-                part = "ret" if w[0] != gg[0] else "globals" if w[1] != gg[1] else "trace"
-                ctx.fail(f"x86_64-exec:wrong-{part}", f"{g.module.name}.{e.name}{tuple(args)} natively gives {got[:300]}; Spec.IR: {want[:300]}",
-                         case, spec=spec, machine=got)
+            natives = irrun.native_results(g, cases)
+            pg = irrun.pointer_globals(g.module)
+            for (e, args), spec, nat in zip(cases, rep[3:], natives):
+                if not spec.startswith("ok ret="):
+                    ctx.count("spec_not_ok_runs")
+                    continue
+                want = irrun.mask_globals(irrun.strip_steps(spec)[3:], pg)
+                got = irrun.mask_globals(nat, pg)
+                case = {"module": g.module.name, "from": tag, "march": "x86_64", "function": e.name, "args": [int(a) for a in args],
+                        "ir": texts.get(id(g), "?")}
+                if nat.startswith("codegen "):
+                    ctx.count("codegen_error_x86_64")
+                    ctx.note(f"{g.module.name}: x86_64 {nat[:160]}")
+                    break
+                ctx.count("eval_exec_x86_64")
+                ctx.nontrivial((g.module.name, e.name, "x86_64"))
+                if not nat.startswith("ret="):
+                    ctx.fail(f"x86_64-exec:{nat.split()[0]}", f"{g.module.name}.{e.name}{tuple(args)} natively: {nat[:200]}; Spec.IR: {want}", case, spec=spec, machine=nat)
+                    continue
+                if not irrun.same_modulo_undef(want, got):
+                    w, gg = want.split(" "), got.split(" ")
+                    part = "ret" if w[0] != gg[0] else "globals" if w[1] != gg[1] else "trace"
+                    ctx.fail(f"x86_64-exec:wrong-{part}", f"{g.module.name}.{e.name}{tuple(args)} natively gives {got[:300]}; Spec.IR: {want[:300]}",
+                             case, spec=spec, machine=got)
+    return x86_native
 
 
 def corpus_modules_tagged():
@@ -355,10 +360,10 @@ def irser_text(g):
 
 
 def check(ctx):
-    cgslivers.frame_alloc(ctx, "C05")
-    cgslivers.riscv_consts(ctx, "C05")
-    cgslivers.arg_locations(ctx, "C05")
-    exec_search(ctx)
+    parts = [cgslivers.frame_alloc(ctx), cgslivers.riscv_consts(ctx), cgslivers.riscv_imm_patterns(ctx), cgslivers.arg_locations(ctx)]
+    x86_native = exec_search(ctx, parts)
+    cgslivers.run_parts(ctx, "C05", parts)       # ONE start of the Lean driver for everything
+    x86_native()
     ctx.extra_cov["exhaustive"] = False
     ctx.extra_cov["targets_executed"] = "riscv, riscv:rvc (Lean RV32 interpreter), x86_64 (native); arm/thumb/mips/m68k only compiled"
     ctx.extra_cov["not_covered"] = "execution on arm, thumb, m68k, mips; floats; i64 on riscv; external calls on riscv"
